@@ -21,6 +21,19 @@ Chain and where each link is proved (targets are the real functions, re-read fro
   errors.HTTPMethodNotAllowed.__init__    Allow == ', '.join(allowed)
   App.__call__ / asgi.App.__call__        prefix only: meta methods (WEBSOCKET) are answered 400 before routing
   StaticRoute.match                       the matcher of a static entry
+
+Frames (what each step must leave alone; every one has a mutation in KILLS that only this clause refutes):
+  _get_responder          writes nothing: app fields (tables, router hook, no new field), request, the route's method map,
+                          the router's params dict; the empty params of a 404 / static hit are a new dict per lookup
+  add_sink / add_static_route / _update_...   write the three tables only; the configured order stays
+  App.__init__            two apps never share a table object
+  create_method_not_allowed / create_default_options / HTTPMethodNotAllowed.__init__
+                          the caller's method list is only read; every 405 has its own headers dict
+  map_http_methods        the resource is not modified; each call returns a new dict
+  set_default_responders  two maps never share a default responder; completing one leaves the other alone
+  add_route               between map_http_methods and the routing tree nothing else edits the map
+  StaticRoute.match       writes no attribute
+Every harness declares its covers with v.expect_covers(...) first, so that an outcome whose v.cover is never executed is reported.
 """
 from __future__ import annotations
 
@@ -1297,12 +1310,14 @@ def parse_allow(h):
 
 
 def default_responders(v):
-    v.expect_covers('default-options', '405', 'user-options-kept', 'nothing-missing')
+    v.expect_covers('default-options', '405', 'user-options-kept')
     constants = v.real('falcon.constants')
     ALL = list(constants.COMBINED_METHODS)
     META = set(constants._META_METHODS)
     asgi = bool(v.choose(2, 'asgi?'))
     rest = v.choose(2, 'all-other-methods-implemented?')
+    if rest:
+        v.expect_covers('nothing-missing')  # every method implemented: no 405 responder is needed at all
     K = []
     for m in reversed(ALL):  # insertion order deliberately not sorted
         if m in REPRESENTATIVES:
